@@ -220,3 +220,16 @@ def bounds_constraint(ctx):
     src = ''.join(unparse(h.node).split())
     ctx.check('cons=ms.symbolic_bounds(min,max)' in src and 'cons=ms.generate_constraint(ms.generate_solvers(ms.simplify(cons)))' in src, 'boundsconstrain#symbolic',
               'symbolic_bounds -> simplify -> generate_solvers -> generate_constraint', 'the symbolic bounds pipeline changed', h, h.node)
+
+
+@rule('C13.g', min_instances=1)
+def constraint_composition_keeps_every_solver(ctx):
+    """generate_constraint flattens the given solvers BEFORE it sizes the default coupling types (one ctype per solver), so zip(conditions, ctype) cannot drop trailing solvers of a nested tuple; conditions are folded in the order given with the identity as seed (reference summary)"""
+    from .c13_refs import REFS
+    a = 'mystic.symbolic:generate_constraint'
+    f = ctx.func(a)
+    got = SB.summary(f.node, strict_casts=True)
+    want = SB.summary_of_source(REFS[a], strict_casts=True)
+    ctx.stats['terms_compared'] += len(got)
+    ctx.check(got == want, 'generate_constraint', 'flatten, then one coupling type per solver, then fold in order',
+              'generate_constraint differs from its confirmed behaviour (solvers can be dropped or coupled differently): %s' % SB.diff(got, want), f, f.node)
